@@ -34,7 +34,7 @@ TraceInit ==
     /\ registered = {} /\ woken = {} /\ owed = {}
     /\ guards = [g \in GuardIds |-> NoGuard]
     /\ ret = RNil /\ hist = <<>>
-    /\ lockWait = {} /\ lwoken = {} /\ futs = [f \in FutIds |-> NoFut] /\ fwoken = {}
+    /\ q = <<>> /\ granted = {} /\ futs = [f \in FutIds |-> NoFut]
     /\ TLCSet(1, 0) /\ TLCSet(2, 0) /\ TLCSet(3, 0) /\ TLCSet(4, 0) /\ TLCSet(5, 0) /\ TLCSet(6, 0) /\ TLCSet(7, 0) /\ TLCSet(8, 0)
 
 Bump(i) == TLCSet(i, TLCGet(i) + 1)
@@ -48,7 +48,7 @@ DoBegin(e) ==
     /\ registered' = {} /\ woken' = {} /\ owed' = {}
     /\ guards' = [g \in GuardIds |-> NoGuard]
     /\ ret' = RNil /\ hist' = <<>>
-    /\ lockWait' = {} /\ lwoken' = {} /\ futs' = [f \in FutIds |-> NoFut] /\ fwoken' = {}
+    /\ q' = <<>> /\ granted' = {} /\ futs' = [f \in FutIds |-> NoFut]
     /\ poisoned' = FALSE /\ seen' = {}
     /\ Bump(1)
 
@@ -81,7 +81,7 @@ PlainAction(e) ==
     \/ e.op = "Write" /\ OwnerWrite(e.h, e.n)
     \/ e.op = "TryWrite" /\ OwnerTryWrite(e.h, e.n)
     \/ e.op = "GuardGet" /\ GuardGet(e.h)
-    \/ e.op \in PollVias /\ CanRead /\ e.h \notin lockWait /\ Poll(e.h, e.op)
+    \/ e.op \in PollVias /\ ReadNow /\ e.h \notin lockWait /\ Poll(e.h, e.op)
     \/ e.op = "NextNow" /\ NextNow(e.h)
     \/ e.op = "NextRefNow" /\ NextRefNow(e.h, e.n)
     \/ e.op = "SubGet" /\ SubGet(e.h)
@@ -94,8 +94,8 @@ PlainAction(e) ==
 ObsAction(e) ==
     \/ PlainAction(e) /\ UNCHANGED avars
     \/ e.op = "DropGuard" /\ DropGuardA(e.h)
-    \/ e.op \in PollVias /\ ~CanRead /\ PollBlocked(e.h, e.op)
-    \/ e.op \in PollVias /\ CanRead /\ e.h \in lockWait /\ PollAfterWait(e.h, e.op)
+    \/ e.op \in PollVias /\ e.h \notin lockWait /\ ~ReadNow /\ PollBlocked(e.h, e.op)
+    \/ e.op \in PollVias /\ e.h \in lockWait /\ PollWaiting(e.h, e.op)
     \/ e.op = "StartSet" /\ StartWriter(e.h, e.n, "Set", e.a)
     \/ e.op = "StartSetIfNotEq" /\ StartWriter(e.h, e.n, "SetIfNotEq", e.a)
     \/ e.op = "StartUpdate" /\ StartWriter(e.h, e.n, "Update", e.a)
@@ -117,7 +117,7 @@ RetProp(e, expected) ==
 RetOk(e) == e.ret = ret'
 
 WakeOk(e) == \A s \in MustBeWoken' : \E j \in 1..Len(e.wk) : e.wk[j] = s
-(* C16: whoever waited on the lock is woken when the guard is dropped *)
+(* C16: whoever is handed the lock (the queue is served whenever the lock is released) has been woken *)
 LockWakeOk(e) == /\ \A s \in lwoken' : \E j \in 1..Len(e.wk) : e.wk[j] = s
                  /\ \A f \in fwoken' : \E j \in 1..Len(e.fwk) : e.fwk[j] = f
 
